@@ -15,7 +15,7 @@
    differential on the implementation (same call with and without the trap set) and by the
    reference-interpreter comparison of ErrDecimal programs. *)
 From Coq Require Import ZArith Bool List.
-From Apd Require Import Generated.Consts Model.Base Model.NumDigits Model.Decimal Model.Context Model.ErrDec Proofs.TrapsProofs Model.Roots Model.Exp Model.Ln Proofs.RootsTraps Proofs.ExpTraps Proofs.LnTraps.
+From Apd Require Import Generated.Consts Model.Base Model.NumDigits Model.Decimal Model.Context Model.ErrDec Proofs.TrapsProofs Model.Roots Model.Exp Model.Ln Proofs.RootsTraps Proofs.ExpTraps Proofs.LnTraps Model.LnHalley Model.Pow Proofs.LnHalleyTraps Proofs.PowTraps.
 Open Scope Z_scope.
 
 Theorem C03_error_nil_iff traps r : go_error traps r = ENone <->
@@ -109,6 +109,25 @@ Theorem C03_log10_series est tab tab2 c t x :
   end.
 Proof. exact (log10_indep est tab tab2 c t x). Qed.
 Print Assumptions C03_log10_series.
+
+(* Ln in full (power series or Halley's iteration), for every value of its float-derived inputs: a nil error means
+   the untrapped result *)
+Theorem C03_ln_nil_error_means_untrapped_result est tab a0 exps c x r :
+  ctx_ln_full est tab a0 exps c x = Ok (Some r) -> rerr r = ENone ->
+  exists r', ctx_ln_full est tab a0 exps (with_traps c c0) x = Ok (Some r') /\ rdec r' = rdec r /\ rcond r' = rcond r.
+Proof. exact (ln_full_untrapped est tab a0 exps c x r). Qed.
+Print Assumptions C03_ln_nil_error_means_untrapped_result.
+
+(* Log10 and Pow in full: every internal step runs under a private context, value and Condition never depend on the
+   caller's traps, for every value of the float-derived inputs *)
+Theorem C03_log10 est tab tab2 a0 exps c t x :
+  same_out (ctx_log10_full est tab tab2 a0 exps (with_traps c t) x) (ctx_log10_full est tab tab2 a0 exps c x).
+Proof. exact (log10_full_indep est tab tab2 a0 exps c t x). Qed.
+Print Assumptions C03_log10.
+Theorem C03_pow est tab cp n a0 exps c t x y :
+  same_out (ctx_pow_with est tab cp n a0 exps (with_traps c t) x y) (ctx_pow_with est tab cp n a0 exps c x y).
+Proof. exact (pow_indep est tab cp n a0 exps c t x y). Qed.
+Print Assumptions C03_pow.
 
 (* ErrDecimal over arbitrary method sequences *)
 Theorem C03_errdecimal_sticky est c p s : ed_err s <> ENone -> ed_run est c s p = Ok s.
